@@ -2175,9 +2175,16 @@ static bool is_const_expr(Node *node) {
   case ND_NE:
   case ND_LT:
   case ND_LE:
+    return is_const_expr(node->lhs) && is_const_expr(node->rhs);
   case ND_LOGAND:
   case ND_LOGOR:
-    return is_const_expr(node->lhs) && is_const_expr(node->rhs);
+    // The right operand is not evaluated (and may divide by zero) if
+    // the left one decides the result.
+    if (!is_const_expr(node->lhs))
+      return false;
+    if (eval_truth(node->lhs) == (node->kind == ND_LOGOR))
+      return true;
+    return is_const_expr(node->rhs);
   case ND_COND:
     if (!is_const_expr(node->cond))
       return false;
